@@ -52,6 +52,7 @@ func fmtFreeRes(err error) string {
 }
 
 func (s *allocState) exec(c *ctx, op string) string {
+	c.pre(op)
 	f := strings.Fields(op)
 	switch f[0] {
 	case "new6":
